@@ -295,6 +295,10 @@ class OpWorld(World):
             # spec primitive: "the subscription to source i is released now"
             self.struct["spec"].append(("dispose-src", args[0]))
             return None
+        if k == "observer" and method == "subscribe_source" and o.name == "spec_out":
+            # spec primitive: "the operator subscribes to its i-th (named) source now"
+            self.struct["spec"].append(("sub-src", args[0], True))
+            return None
         if k == "observer" and method == "dispose_previous" and o.name == "spec_out":
             # spec primitive: "the previous inner subscription is released now"
             self.struct["spec"].append(("dispose-prev",))
@@ -328,6 +332,11 @@ class OpWorld(World):
             d = Opaque("disposable", f"sub:{o.name}:{len(self.subs)}")
             self.subs.append((o, hs, kwargs, d))
             self.events.append(("subscribe", o.name, d))
+            if ("term" not in o.attrs and self.harness is not None and getattr(self.harness, "in_handler", False)
+                    and o.name in self.harness.c.sources
+                    and (len(self.harness.c.sources) > 1 or getattr(self.harness.c, "late_subscribe", False))):
+                direct = bool(args) and isinstance(args[0], Opaque) and args[0].kind == "observer" and args[0].name == "observer"
+                self.struct["impl"].append(("sub-src", list(self.harness.c.sources).index(o.name), direct))
             if "term" in o.attrs:
                 self.struct["impl"].append(("sub", o.attrs["term"]))
                 if self.harness is not None and getattr(self.harness, "in_handler", False):
@@ -886,6 +895,9 @@ class OpHarness:
             elif a[0] == "dispose-src":
                 ok &= self.record(ctx, oid + "/unsubscribes-the-right-source", a[1] == b[1],
                                   detail=f"real code releases source #{a[1]}, spec #{b[1]}")
+            elif a[0] == "sub-src":
+                ok &= self.record(ctx, oid + "/subscribes-the-right-source-with-the-subscriber-itself", a[1] == b[1] and a[2] == b[2],
+                                  detail=f"real code subscribes source #{a[1]} (subscriber handed over directly: {a[2]}), spec #{b[1]}")
             elif a[0] == "timer":
                 ok &= self.record(ctx, oid + "/timers/set-for-the-same-instant", a[1] == b[1],
                                   detail=f"real code: due {a[1]}, spec: due {b[1]}")
@@ -897,6 +909,51 @@ class OpHarness:
             ok &= self.record(ctx, oid + f"/call-out#{k}/inv-holds-when-subscribing", t, kind="inv",
                               detail="the source being subscribed may call back synchronously: operator state must be consistent here")
         return ok
+
+    def after_termination(self, it, ctx, uid, cells_env, s):
+        """contracts with a terminated-state invariant (`inv_done`): a step taken after the operator terminated does
+        nothing that is visible outside it - it subscribes nothing, sets no timer - and keeps that invariant"""
+        c = self.c
+        if not getattr(c, "inv_done", None):
+            return
+        impl = [e for e in self.w.struct["impl"] if e[0] in ("sub", "sub-src", "timer")]
+        self.record(ctx, uid + "/after-termination/nothing-subscribed-or-scheduled", not impl, kind="frame",
+                    detail=f"after the sequence terminated the real code still does: {[e[0] for e in impl]} "
+                           f"(sub / sub-src = subscribes a source, timer = sets a timer)")
+        invd = self.check_inv(it, ctx, uid, cells_env, s, base=c.inv_done)
+        self.record(ctx, uid + "/after-termination/terminated-invariant-preserved", invd, kind="inv")
+
+    def ghost_eval(self, it, cells_env, s, src, k):
+        env = self.inv_env(it, cells_env, s)
+        env.vars["k"] = k
+        it.ctx.spec += 1
+        try:
+            return it.truth_term(self.eval_src(it, src, env))
+        finally:
+            it.ctx.spec -= 1
+
+    def ghost_pre(self, it, ctx, cells_env, s):
+        """timer families with a ghost invariant (`ghost_inv`, over the spec state and the timer's identity k only): it is
+        established when the timer is created and preserved by every step, for every timer still pending (arbitrary k)"""
+        pre = []
+        for name, T in getattr(self.c, "timers", {}).items():
+            if T.get("ghost_inv"):
+                k = ctx.fresh("k_pending", "int")
+                pre.append((name, k, self.ghost_eval(it, cells_env, s, T["ghost_inv"], k)))
+        return pre
+
+    def ghost_post(self, it, ctx, uid, cells_env, s, pre):
+        for name, k, before in pre:
+            after = self.ghost_eval(it, cells_env, s, self.c.timers[name]["ghost_inv"], k)
+            goal = natives.mk_or((not before) if isinstance(before, bool) else z3.Not(before), after)
+            self.record(ctx, uid + f"/timer[{name}]/ghost-invariant-preserved", goal, kind="inv")
+
+    def done_established(self, it, ctx, uid, cells_env, s, done2):
+        c = self.c
+        if not getattr(c, "inv_done", None):
+            return
+        invd = self.check_inv(it, ctx, uid, cells_env, s, base=c.inv_done)
+        self.record(ctx, uid + "/terminated-invariant-established", natives.mk_or((not done2) if isinstance(done2, bool) else z3.Not(done2), invd), kind="inv")
 
     # -- snapshots of the operator's cells / the spec state at a call-out ---------------------------
     def capture_impl(self, strict=False):
@@ -970,11 +1027,12 @@ class OpHarness:
             ok &= self.record(ctx, oid + "/error-payload", ti[1] == ts[1])
         return ok
 
-    def check_inv(self, it, ctx, oid, env, s, extra=None, more=None):
+    def check_inv(self, it, ctx, oid, env, s, extra=None, more=None, base=None):
         inv_env = self.inv_env(it, env, s)
         if extra:
             inv_env.vars.update(extra)
-        src = self.c.inv if not more else f"({self.c.inv}) and ({more})"
+        base = base or self.c.inv
+        src = base if not more else f"({base}) and ({more})"
         ctx.spec += 1
         try:
             t = it.truth_term(self.eval_src(it, src, inv_env))
@@ -1159,6 +1217,11 @@ class OpHarness:
             cells_env = self.extra_envs[0]
         sdone = self.spec_done(it, ctx, s)
         impl_term = w.trace("observer").terminal is not None
+        if not handlers and getattr(c, "late_subscribe", False):
+            inv0 = self.check_inv(it, ctx, f"{uid}/subscribe/inv", Env(None, env.module), s)
+            self.record(ctx, f"{uid}/subscribe/inv-established", inv0, kind="inv")
+            self.disp = disp
+            return it, w, Env(None, env.module), s, handlers
         if not handlers:
             # nothing subscribed upstream: only legitimate when the operator already terminated
             if not impl_term:
@@ -1236,20 +1299,27 @@ class OpHarness:
         # escapes" is still required.
         done = self.spec_done(it, ctx, s)
         is_done = done if isinstance(done, bool) else ctx.branch(done, "already-terminated")
+        live = getattr(c, "live", None)
+        if live and len(c.sources) > 1:
+            # source grammar: the source whose handler runs has not terminated before (it emits nothing after its terminal,
+            # nor after its subscription was released)
+            env_l = self.inv_env(it, cells_env, s)
+            env_l.vars["i"] = list(c.sources).index(source)
+            ctx.spec += 1
+            try:
+                t = it.truth_term(self.eval_src(it, live, env_l))
+            finally:
+                ctx.spec -= 1
+            ctx.assume(t if not isinstance(t, bool) else z3.BoolVal(t))
+            if smt.check_sat(ctx.pc)[0] == "unsat":
+                raise PathEnd()
         if not is_done:
             inv = self.check_inv(it, ctx, uid, cells_env, s)
             ctx.assume(inv if not isinstance(inv, bool) else z3.BoolVal(inv))
-            live = getattr(c, "live", None)
-            if live and len(c.sources) > 1:
-                # source grammar: the source whose handler runs has not terminated before (it emits nothing after its terminal)
-                env_l = self.inv_env(it, cells_env, s)
-                env_l.vars["i"] = list(c.sources).index(source)
-                ctx.spec += 1
-                try:
-                    t = it.truth_term(self.eval_src(it, live, env_l))
-                finally:
-                    ctx.spec -= 1
-                ctx.assume(t if not isinstance(t, bool) else z3.BoolVal(t))
+        elif getattr(c, "inv_done", None):
+            invd = self.check_inv(it, ctx, uid, cells_env, s, base=c.inv_done)
+            ctx.assume(invd if not isinstance(invd, bool) else z3.BoolVal(invd))
+        gpre = [] if is_done else self.ghost_pre(it, ctx, cells_env, s)
         # fresh traces
         self.begin_step(w, cells_env, s)
         if is_done:
@@ -1274,6 +1344,7 @@ class OpHarness:
                 self.guard_obligations(it, ctx, uid, guards0)
         if is_done:
             self.record(ctx, uid + "/after-termination/no-exception-escapes", True, kind="exc")
+            self.after_termination(it, ctx, uid, cells_env, s)
             return
         out = Opaque("observer", "spec_out")
         idx_arg = [list(c.sources).index(source)] if len(c.sources) > 1 else []
@@ -1292,10 +1363,16 @@ class OpHarness:
             self.compare_subscriptions(it, ctx, uid, self.n_subs_before)
         if getattr(c, "timed", False):
             s.fields["clock"] = IntSV(w.now_term)
-        if slot == 0:
+        # the invariant is re-established by EVERY handler that leaves the operator running (a terminal notification of one
+        # source of several, or one the operator absorbs, does not end the output)
+        done2 = self.spec_done(it, ctx, s)
+        if slot != 0 and w.trace("spec_out").terminal is not None:
+            done2 = True  # the spec machine ended the output in this step
+        if slot == 0 or done2 is not True:
             inv2 = self.check_inv(it, ctx, uid, cells_env, s)
-            done2 = self.spec_done(it, ctx, s)
             self.record(ctx, uid + "/inv-preserved", natives.mk_or(done2, inv2), kind="inv")
+        self.done_established(it, ctx, uid, cells_env, s, done2)
+        self.ghost_post(it, ctx, uid, cells_env, s, gpre)
 
     def begin_step(self, w, cells_env, s):
         """fresh observation window for one handler step"""
@@ -1449,7 +1526,8 @@ class OpHarness:
                 it.call(h, args, {})
             except PyExc:
                 raise PathEnd()
-            self.spec_call(it, s, hn, [Opaque("observer", "spec_out")] + args)
+            idx_arg = [list(c.sources).index(src)] if len(c.sources) > 1 else []
+            self.spec_call(it, s, hn, [Opaque("observer", "spec_out")] + idx_arg + args)
             created = w.timers[n0:]
         else:
             ctx.results.clear()
@@ -1466,6 +1544,8 @@ class OpHarness:
             ctx.spec += 1
             ident = self.eval_src(it, T["id"], self.inv_env(it, cells_env, s))
             ctx.spec -= 1
+        if T.get("ghost_inv") and ident is not None:
+            self.record(ctx, uid + "/ghost-invariant-established", self.ghost_eval(it, cells_env, s, T["ghost_inv"], ident), kind="inv")
         # --- an arbitrary later state in which this timer is still pending
         self.havoc(it, ctx, cells_env, s)
         done = self.spec_done(it, ctx, s)
@@ -1476,6 +1556,13 @@ class OpHarness:
         if not is_done:
             inv = self.check_inv(it, ctx, uid, member_env, s, extra=extra, more=T.get("inv"))
             ctx.assume(inv if not isinstance(inv, bool) else z3.BoolVal(inv))
+        elif getattr(c, "inv_done", None):
+            invd = self.check_inv(it, ctx, uid, member_env, s, extra=extra, more=T.get("inv_done", T.get("inv")), base=c.inv_done)
+            ctx.assume(invd if not isinstance(invd, bool) else z3.BoolVal(invd))
+        if T.get("ghost_inv") and ident is not None:
+            g = self.ghost_eval(it, cells_env, s, T["ghost_inv"], ident)
+            ctx.assume(g if not isinstance(g, bool) else z3.BoolVal(g))
+        gpre = [] if is_done else self.ghost_pre(it, ctx, cells_env, s)
         self.fixed_time = True
         try:
             self.begin_step(w, cells_env, s)
@@ -1495,6 +1582,7 @@ class OpHarness:
             return
         if is_done:
             self.record(ctx, uid + "/after-termination/no-exception-escapes", True, kind="exc")
+            self.after_termination(it, ctx, uid, cells_env, s)
             return
         out = Opaque("observer", "spec_out")
         m = it.class_lookup(s.cls, T["spec"])
@@ -1508,6 +1596,8 @@ class OpHarness:
         inv2 = self.check_inv(it, ctx, uid, cells_env, s)
         done2 = self.spec_done(it, ctx, s)
         self.record(ctx, uid + "/inv-preserved", natives.mk_or(done2, inv2), kind="inv")
+        self.done_established(it, ctx, uid, cells_env, s, done2)
+        self.ghost_post(it, ctx, uid, cells_env, s, gpre)
 
     # -- driver -------------------------------------------------------------------------
     def run(self):
